@@ -139,6 +139,18 @@ def rule_D1(ctx, typer, clsname, nodes_fn="__iter_nodes", edges_fn="__iter_edges
     if inner is None:
         raise AnalysisError("anchor: loop over node.children in %s.%s not found" % (clsname, edges_fn))
     child = inner.target.id
+    # predicates the loop header itself establishes for every element: filter(P, S) -> P true, filterfalse(Q, S) -> Q false
+    header_facts = set()
+    it_ = inner.iter
+    while isinstance(it_, ast.Call) and len(it_.args) == 2 and not it_.keywords:
+        fname_ = norm(it_.func)
+        if fname_ == "filter" and isinstance(it_.args[0], ast.Name):
+            header_facts.add((it_.args[0].id, True))
+        elif fname_ in ("filterfalse", "itertools.filterfalse") and isinstance(it_.args[0], ast.Name):
+            header_facts.add((it_.args[0].id, False))
+        else:
+            break
+        it_ = it_.args[1]
     ys = [y for y in ast.walk(inner) if isinstance(y, ast.Yield)]
     if not ys:
         raise AnalysisError("anchor: edge yield in %s.%s not found" % (clsname, edges_fn))
@@ -154,6 +166,8 @@ def rule_D1(ctx, typer, clsname, nodes_fn="__iter_nodes", edges_fn="__iter_edges
                 gs = cfg.guards_of(c_)
                 hit = any(isinstance(c, ast.Call) and _last_name(c.func) == pred and len(c.args) == 1 and
                           isinstance(c.args[0], ast.Name) and c.args[0].id == child and o is want for c, o, _ in gs)
+                if not hit and isinstance(a, ast.Name) and (a.id, want) in header_facts:
+                    hit = True
                 if not hit:
                     ok = False
             if ok:
